@@ -70,7 +70,12 @@ func main() {
 		emit()
 	case "save":
 		signal.Ignore(syscall.SIGXFSZ)
-		initial := credenv.Render(credenv.Content{Kind: "doc", M: parseMap(*old)}, *keyLen)
+		var initial []byte
+		if *old == "@empty" {
+			initial = []byte{} // a store file of zero bytes: no users (the freshly provisioned store)
+		} else {
+			initial = credenv.Render(credenv.Content{Kind: "doc", M: parseMap(*old)}, *keyLen)
+		}
 		e, err := credenv.New(*dir, *keyLen, true, true, initial, keyNames, nil)
 		if err != nil {
 			fmt.Fprintln(os.Stderr, "setup:", err)
